@@ -624,6 +624,18 @@ func (g *gen) step1() {
 		if i < 0 || (g.infos[i].topo == 1 && !g.infos[i].idxValid) {
 			return
 		}
+		if g.infos[i].topo == 1 && g.infos[i].nmats == 0 && g.r.Bool() {
+			// point clouds WITH materials: Crop hands the receiver's material slice on to the constructor
+			var k int
+			if g.r.Bool() {
+				k = g.push(Op{Op: "setmaterial", I: i, Mat: g.r.Range(1, 5)})
+			} else {
+				k = g.push(Op{Op: "setmaterials", I: i, Mats: g.matsFor(i), Spare: g.spare()})
+			}
+			if k >= 0 {
+				i = k
+			}
+		}
 		_, nm, _ := g.someAttr(i, 3)
 		g.push(Op{Op: "crop", I: i, Name: nm, Vec: append(g.vec(3, 0, 8), float64(2*g.r.Range(2, 10)), float64(2*g.r.Range(2, 10)), float64(2*g.r.Range(4, 12))), Via: g.r.Chance(1, 3)})
 	case w < 98:
